@@ -15,6 +15,11 @@ CHECKS = {
   text="Theorem analysis_sound: for pipelines of any length over a well-formed library, if the reference flow analysis accepts with external requirements req and the initial context holds every key of req (or any superset), then no node is rejected at construction and no node fails with an unresolved parameter, a missing/deleted key, an unknown parameter or the type gate — only the processor's own error remains possible. key_delta_declared: a key can only appear/disappear at a node that is declared to create/suppress it. The real inspection is compared with the reference analysis (verdict and required keys) on generated pipelines including the shapes the property names, and real runs with exactly the required keys and with supersets are checked for flow errors, per-node created/suppressed facts, parameter origins (by value provenance over snapshots) and unknown-parameter names.",
   note="Trusted: Lean kernel; props/c02.py oracles and generator; nodeWF (operations write the keys they declare; writing slicers are outside the theorem). Origin truth is decided by the real-code oracle only (no Lean theorem). One open known finding (defaulted parameter overridden by a required initial key is reported as 'default').",
   design="§7 C02"),
+ "C03": dict(
+  technique="Lean 4 proof over an executable model of sweep enumeration and element construction (reusing the C08 product theorems; cycling lemma for broadcast; right-biased merge lemma; ordered-map lemma) + differential run of real pipelines containing derive.parameter_sweep nodes vs the compiled Lean model + Python contract check of numpy ranges",
+  text="Theorems iterate_comb / comb_length / comb_sorted_vars / comb_keys / comb_index (combinatorial mode is the product over variable names in sorted order, last name fastest), pos_aligned / pos_unequal_rejected, pos_broadcast_cycles / cycleRun_value (broadcast takes position i mod n_v — cycling, not padding), merge_precedence (computed by expression > node-level value), elements_ordered (one element per step, in step order, each the wrapped body applied to the merged parameters), published_every_var. Real pipelines with a sweep node of each wrapped kind (source/operation/probe), every variable form (lists, values, ranges linear/log with/without endpoint, from_context), both modes, broadcast, tuple and integer expressions and surrounding nodes are run and compared element by element with the model.",
+  note="Trusted: Lean kernel; props/c03.py generator; numpy range materialisation is outside the model (values taken from the run, contract checked in Python); expressions limited to tuples of variables and the integer fragment of C12. No generated side condition beyond the C01 precedence table.",
+  design="§7 C03"),
  "C06": dict(
   technique="Lean 4 proof (the template-method lifecycle as a function of a shape record and a fault plan; loop lemma by induction over the node list) + decidable side condition on the try/except/finally shape extracted from execute() + fault-injection runs of the real orchestrator compared with the model and judged by a real-code oracle",
   text="Theorem trace_wellformed: for every lifecycle shape satisfying `good` and every fault plan — any number of nodes, a failure at any node or during node construction, of Exception class or BaseException class — the emitted stream is exactly pipeline_start, one SER per started node (all succeeded but a final failing one), one pipeline_end that is ok iff the run returned; the original exception reaches the caller; the driver is closed (corollaries bracketed, always_closed). The shape is re-extracted from SemantivaOrchestrator.execute on every run and `shape.good` re-decided. Real traced runs inject a fault at every node index for every failure kind (processor exception, KeyboardInterrupt, unresolvable parameter, type gate, undeclared write, two construction errors) across detail levels and file/directory output; the record sequence is compared with the model run on the same plan, and ids, upstream lists vs canonical edges, schema validity of every line, the exception class and the closed file are checked on the real output.",
